@@ -6,6 +6,7 @@ import (
 	"verif/harness/internal/crashpt"
 	"verif/harness/internal/ctlsim"
 	"verif/harness/internal/restfuzz"
+	"verif/harness/internal/rpcsim"
 )
 
 func runOtherWorker(engine string, wa workerArgs) error {
@@ -14,6 +15,8 @@ func runOtherWorker(engine string, wa workerArgs) error {
 		return crashpt.RunWorker(wa.prop, wa.seed, wa.worker, wa.cases, wa.scratch, wa.out, wa.extra)
 	case "restfuzz":
 		return restfuzz.RunWorker(wa.prop, wa.seed, wa.worker, wa.cases, wa.scratch, wa.out, wa.extra)
+	case "rpcsim":
+		return rpcsim.RunWorker(wa.prop, wa.seed, wa.worker, wa.cases, wa.out, wa.extra["tier"] == "thorough")
 	case "ctlsim":
 		return ctlsim.RunWorker(wa.prop, wa.seed, wa.worker, wa.cases, wa.out)
 	}
